@@ -523,6 +523,11 @@ def fix_small_length(I, sq):
     if sq.units() is not None:
         return sq.units()
     leaves = possible_lengths(I, sq.n)
+    if not leaves and "!hv!" in str(z3.simplify(sq.n))[:400]:
+        # a length read through a loop frame: unchanged objects keep a length the path condition may fix outright
+        mv = I.st.model_value(sq.n)
+        if mv is not None and z3.is_int_value(mv) and 0 <= mv.as_long() <= 32 and I.st.valid(sq.n == mv):
+            return [z3.simplify(sq.at(i)) for i in range(mv.as_long())]
     if not leaves or len(leaves) > 6 or max(leaves) > 32:
         return None
     for k in sorted(leaves):
@@ -543,6 +548,12 @@ def iterate_concrete(I, it):
                 return fix_small_length(I, st.list_sq(it2))
             if k == K_DICT:
                 return fix_small_length(I, st.dict_order(it2))
+        if is_v(it2) and I.tag(it2, cheap=True) == "tup" or (is_v(it2) and not isinstance(it2, HView) and I.tag(it2) == "tup"):
+            # a symbolic tuple whose arity the path condition fixes: its components
+            raw = V.items(it2)
+            mv = st.model_value(z3.Length(raw))
+            if mv is not None and z3.is_int_value(mv) and 0 <= mv.as_long() <= 16 and st.valid(z3.Length(raw) == mv):
+                return [z3.simplify(raw[i]) for i in range(mv.as_long())]
         if isinstance(it2, HView) and it2.kind in ("keys", "items", "values"):
             u = fix_small_length(I, st.dict_order(it2.base))
             if u is not None:
@@ -1039,6 +1050,15 @@ def _symbolic_comp(I, e, env, inner, kind, it):
             extra = [z3.substitute(x_, (xb_range, V.int(it.base[0] + xi))) for x_ in extra]
         if extra:
             st.assume(z3.ForAll([i], z3.Implies(z3.And(i >= 0, i < seq.n), z3.substitute(z3.And(extra), (xi, i)))))
+        if kind == "list" and getattr(I.spec, "map_as_axiom", False):
+            # opt-in: the mapped list is a fresh array constrained pointwise (quantified axiom + instance at every index read)
+            # instead of a lambda term, which keeps the heap quantifier-free for the dispatch / first discharge stages
+            arr = fresh("mapped", VArr)
+            n_ = seq.n
+            st.assume(z3.ForAll([i], z3.Implies(z3.And(i >= 0, i < n_), z3.Select(arr, i) == z3.substitute(elt, (xi, i)))))
+            st.list_instantiators.append(lambda lid, idx, _arr=arr, _elt=elt, _xi=xi, _n=n_: z3.Implies(z3.And(idx >= 0, idx < _n),
+                                                                                                      z3.Select(_arr, idx) == z3.substitute(_elt, (_xi, idx))))
+            return st.new_list(Sq(arr, n_))
         out = Sq(z3.Lambda([i], z3.substitute(elt, (xi, i))), seq.n)
         if kind == "gen":
             xb2 = fresh("cx")
@@ -1760,6 +1780,10 @@ def call_ext(I, dotted, args, kwargs, star, env):
             else:
                 items = iterate_concrete(I, src)
                 if items is None:
+                    if os.environ.get("PYVC_DEBUG2") and isinstance(src, HView):
+                        for b in src.base:
+                            bb = I.lower(b)
+                            print("DICT-ZIP arg", str(bb)[:200], "tag", I.tag(bb) if is_v(bb) else type(bb), "concrete", iterate_concrete(I, bb) is not None)
                     raise OutsideSubset("dict() of symbolic iterable")
                 for it in items:
                     k, v = unpack(I, it, 2)
@@ -1824,6 +1848,20 @@ def call_ext(I, dotted, args, kwargs, star, env):
         items = iterate_concrete(I, src)
         if items is not None and len(items) <= 1:
             return st.new_list(sq_of(I, items))
+        if items is not None:
+            # pairwise distinct literal strings / integers: the sorted order is known outright
+            lits = []
+            for x in items:
+                xs = z3.simplify(I.lift(x))
+                if z3.is_app(xs) and xs.decl().name() == "str" and z3.is_string_value(xs.arg(0)):
+                    lits.append(("s", xs.arg(0).as_string(), xs))
+                elif z3.is_app(xs) and xs.decl().name() == "int" and z3.is_int_value(xs.arg(0)):
+                    lits.append(("i", xs.arg(0).as_long(), xs))
+                else:
+                    lits = None
+                    break
+            if lits and len({k_ for k_, _, _ in lits}) == 1 and len({v_ for _, v_, _ in lits}) == len(lits):
+                return st.new_list(sq_of(I, [t_ for _, _, t_ in sorted(lits, key=lambda r_: r_[1])]))
         out = Sq(SortedArr(dom), n)
         st.assume(set_term_ax(I, out) == dom)
         return st.new_list(out)
